@@ -13,6 +13,13 @@ def run(rep, prog, tier):
     rep.rule('R05.formula', 'network power = V*conj(I); DC = V*I; complex = 1/2*V*conj(I) for peak phasors else V*conj(I); time domain = v(t)*i(t); transient = product of the two series; frequency domain delegates per frequency; both factors are queried with the same identifier')
     rep.assume('get_voltage / get_current of the same object return the quantities checked under C01 / C02')
     envs = {'self': A('self'), 'id': A('id')}
+    # ---- the two factors themselves: the read-back of branch voltage and current from the solution vector addresses the unknown of the
+    # queried branch for every naming / listing order (index-space typing of the bias-point accessors, shared with C01)
+    from . import spacerules as SR
+    rep.rule('R05.space', 'the voltage and the current multiplied in the power formulas are read from the solution vector at the position of the queried branch (index-space typing of the accessors)')
+    interps = SR.analyse(prog)
+    n = SR.emit(rep, 'R05.space', interps, ['bias'])
+    if n < 4: rep.error(f'only {n} index-space obligations on the read-back accessors')
     # ---- network solution
     m, cls = class_of(prog, 'Network.NodalAnalysis.bias_point_analysis', 'NodalAnalysisBiasPointSolution')     # concrete class: overrides are seen
     ev = new_ev(prog)
